@@ -6,22 +6,26 @@ import numpy as np
 from .. import core, gen
 
 ID = 'C16'
-FOUNDATIONS = ['harness.foundation.pybody']   # bernsenRule / otsuImg are tied to the current bodies of gbernsen / otsu
+FOUNDATIONS = ['harness.foundation.pybody', 'harness.foundation.cscalar']   # see each foundation module's docstring
 _META = core.VERIF / 'harness' / 'props' / 'meta' / 'C16.json'
 LEVEL = json.loads(_META.read_text())['category'] if _META.exists() else 'other'
-RULE = ('corpus; unsigned images (uint8/16/32/64, 1-3 D, 1..4096 pixels) with 1..65536 grey levels: constant, two-level, '
+RULE = ('corpus; a size-threshold stream (a handful of cases per run whose pixel count / per-bin count / number of distinct '
+        'levels crosses 2^8, 2^15, 2^16: 65537 pixels in one bin, 257x256, 255/256/257 and 65535/65536 distinct levels, a '
+        'gbernsen row longer than 65536; thorough: 2^24+1 pixels in one bin judged by an exact Python oracle (Fractions) that '
+        'is compared field by field with the Lean spec on the other threshold cases); unsigned images (uint8/16/32/64, 1-3 D, 1..4096 pixels) with 1..65536 grey levels: constant, two-level, '
         'sparse histograms with gaps, symmetric histograms with exact ties for the optimum, zero-dominated, full 16-bit '
-        'range, each with ignore_zeros off and on, each also permuted and reshaped; gbernsen/bernsen on uint8/uint16 '
+        'range, zeros plus one level, nearly symmetric histograms at high levels, each with ignore_zeros off and on, each also permuted and reshaped; gbernsen/bernsen (radius 1..4, images smaller than the window) on uint8/uint16 '
         'images with random/regular/even-sized structuring elements, contrast thresholds around the occurring contrasts, '
-        'integer and half-integer global thresholds; soft_threshold on float64 (dyadic and arbitrary) and int64 data, '
+        'integer and half-integer global thresholds; soft_threshold on float64 (dyadic and arbitrary), float32/float16 (dyadic) and every integer dtype (unsigned, narrow, dtype minimum and maximum included), '
         'tval >= 0 incl. 0 and values equal to |f|. Non-trivial = more than one occurring level (thresholds), both '
         'branches of the rule taken (bernsen), some element shrunk and some zeroed (soft); distinct = distinct input.')
 ASSUMPTIONS = ['otsu/rc/fullhistogram are given C-contiguous writable unsigned-integer arrays (other layouts are rejected by '
                'histogram.py: a C08 matter), with at least one pixel and levels <= 65535',
                'pixel count and sum of grey levels < 2^53 (the double accumulators of the C code are then exact)',
                'otsu: any maximiser of the exact (rational) between-class variance is accepted; when the returned threshold '
-               'is not an exact maximiser but within 1e-9 relative of the maximum the case is counted as a near-tie and '
-               'not judged',
+               'is not an exact maximiser but its exact sigma is within otsuMargin(hist) of the maximum (the rounding-error '
+               'bound proved for the binary64 model, C16_otsu_binary64_margin; N^2 <= 2^53 and first moment <= 2^53 hold '
+               'for every generated image) the case is counted as a near-tie and not judged',
                'rc: the returned double is compared with the exact rational value within 1e-12 relative; cases whose '
                'stopping comparison m(t) <= t+1 has an exact margin below 1e-9 are counted as near-ties and not judged',
                'bernsen/gbernsen: the statement fixes which comparison is made where, not its orientation: the code\'s '
@@ -40,7 +44,70 @@ _skipped = dict(otsu_near_tie=0, rc_near_tie=0)
 
 
 def _img(case):
+    if 'rle' in case:          # size-threshold stream: [[value, count], ...] in C order
+        flat = np.concatenate([np.full(c, v, dtype=np.uint64) for v, c in case['rle']])
+        return flat.astype(case['dtype']).reshape(case['shape'])
     return np.array(case['data'], dtype=np.uint64).astype(case['dtype']).reshape(case['shape'])
+
+
+def _fs(q):
+    q = Fraction(q)
+    return f'{q.numerator}/{q.denominator}'
+
+
+def _py_global(hist_full, real):
+    """Exact O(levels) Python oracle for otsu / rc (Fractions), written from the same definitions as the Lean spec
+    (sigmaAll / listMax / firstArgmax, otsuMargin, rcSpec of Model/C16.lean).  It answers in the driver's output format.
+    It is used INSTEAD of the driver only for inputs too large for the line protocol (thorough tier: 2^24+1 pixels); on the
+    size-threshold cases that do go through the driver its agreement with the Lean spec is checked field by field."""
+    out = [dict(hist=','.join(map(str, hist_full)))]
+    u = Fraction(1, 2 ** 53)
+    for iz in (0, 1):
+        hist = list(hist_full)
+        allzero = bool(iz) and hist[0] == sum(hist)
+        if iz:
+            hist[0] = 0
+        n = len(hist)
+        C, F, c, f_ = [], [], 0, 0
+        for i, h in enumerate(hist):
+            c += h; f_ += i * h
+            C.append(c); F.append(f_)
+        tot, ftot = C[-1], F[-1]
+
+        def sigma(T):
+            nB, nO = C[T], tot - C[T]
+            if nB == 0 or nO == 0:
+                return Fraction(0)
+            dd = Fraction(F[T], nB) - Fraction(ftot - F[T], nO)
+            return nB * nO * dd * dd
+        occ = [i for i, h in enumerate(hist) if h]
+        lo, hi = (occ[0], occ[-1]) if occ else (0, 0)
+        cand = range(lo, hi) if occ else []          # sigma is 0 outside [lo, hi)
+        sig = {T: sigma(T) for T in cand}
+        smax = max(sig.values(), default=Fraction(0))
+        first = next((T for T in cand if sig[T] == smax), 0) if smax > 0 else 0
+        got = int(real[iz][0])
+        sgot = sigma(got) if 0 <= got < n else Fraction(-1)
+        D = hi - lo
+        E = u * ftot * (1 + 4 * D)
+        eta = (1 + u) * (2 * E) + u * D
+        B = ((1 + u) * (E * tot) + u * (tot * tot * D)) * (2 * D + eta) + (2 * u + u * u) * (tot * tot * ((D + eta) * (D + eta)))
+        out.append(dict(n=str(n), smax=_fs(smax), sgot=_fs(sgot), first=str(first), margin=_fs(2 * B), model=str(got)))
+        # rc
+        if allzero or tot == 0:
+            spec, margin, lo_, hi_ = Fraction(0), Fraction(1), 0, 0
+        elif lo == hi:
+            spec, margin, lo_, hi_ = Fraction(lo), Fraction(1), lo, hi
+        else:
+            margin, spec, lo_, hi_ = Fraction(hi + 1), Fraction(0), lo, hi
+            for t in range(lo, hi):
+                m = (Fraction(F[t], C[t]) + Fraction(ftot - F[t], tot - C[t])) / 2
+                margin = min(margin, abs(m - (t + 1)))
+                spec = m
+                if m <= t + 1:
+                    break
+        out.append(dict(spec=_fs(spec), margin=_fs(margin), lo=str(lo_), hi=str(hi_), model=str(core.f2bits(float(real[iz][1])))))
+    return out
 
 
 def _frac(s):
@@ -55,7 +122,8 @@ def _eval_global(case):
     from mahotas.thresholding import otsu, rc
     img = _img(case)
     data = [int(v) for v in img.ravel().tolist()]
-    d = gen.enc_arr(data)
+    use_py = case.get('oracle') == 'python'
+    d = '' if use_py else gen.enc_arr(data)
     f = []
     near = {}
     lines = [f'c16 kind=hist data={d}']
@@ -98,8 +166,22 @@ def _eval_global(case):
     for iz in (0, 1):
         lines.append(f'c16 kind=otsu data={d} iz={iz} got={int(real[iz][0])}')
         lines.append(f'c16 kind=rc data={d} iz={iz}')
-    drv = core.drive(lines)
     mh_hist = [int(v) for v in hist.tolist()]
+    if use_py:
+        drv = _py_global(np.bincount(np.asarray(data, dtype=np.int64), minlength=max(data) + 1).tolist(), real)
+    else:
+        drv = core.drive(lines)
+        if case.get('size') == 'threshold':
+            # the Python oracle agrees with the Lean spec on every field the verdicts use
+            py = _py_global(core.ints(drv[0]['hist']), real)
+            for i in (1, 2, 3, 4):
+                for k in (('smax', 'sgot', 'margin', 'n') if i % 2 else ('spec', 'margin', 'lo', 'hi')):
+                    if k == 'sgot' and not (0 <= int(real[(i - 1) // 2][0]) < int(drv[i]['n'])):
+                        continue
+                    a, b = drv[i][k], py[i][k]
+                    same = (_frac(a) == _frac(b)) if '/' in a else (a == b)
+                    if not same:
+                        f.append(dict(kind='model', key='python-oracle-mismatch', detail=dict(line=i, field=k, lean=a[:80], python=b[:80])))
     if mh_hist != core.ints(drv[0]['hist']):
         # hist[i] == (img == i).sum() is what the docstring promises
         ref = np.bincount(np.array(data, dtype=np.int64), minlength=max(data) + 1).tolist()
@@ -116,7 +198,10 @@ def _eval_global(case):
         else:
             smax, sgot = _frac(do['smax']), _frac(do['sgot'])
             if sgot != smax:
-                if smax - sgot <= Fraction(1, 10**9) * smax:
+                # C16_otsu_binary64_margin: a threshold computed in binary64 has 0 <= smax - sgot <= otsuMargin(hist)
+                # (explicit bound, leading term 16*2^-53*(hi-lo)^2*Fn*N, evaluated exactly by the driver); within the
+                # margin the deficit is explained by rounding (counted, not judged), outside it cannot be
+                if smax - sgot <= _frac(do['margin']):
                     near['otsu'] = near.get('otsu', 0) + 1
                 else:
                     f.append(dict(kind='property', key='otsu:not-argmax',
@@ -174,12 +259,22 @@ def _eval_global(case):
         if len(lv) == 2 and not (lv[0] <= int(real[iz][0]) < lv[1]):
             f.append(dict(kind='property', key='otsu:two-level-separates',
                           detail=dict(levels=lv, got=int(real[iz][0]), iz=iz)))
+    # degenerate inputs (C16_otsu_single_level, C16_rc_single_level, C16_rc_ignore_zeros): one counted level -> otsu 0,
+    # rc = that level (0 when nothing is counted); the statement only fixes lo <= rc <= hi, so these are model findings
+    for iz in (0, 1):
+        lv = sorted(set(v for v in data if v or not iz))
+        if len(lv) <= 1 and iz in real:
+            want_rc = float(lv[0]) if lv else 0.0
+            if int(real[iz][0]) != 0:
+                f.append(dict(kind='model', key='otsu:single-level', detail=dict(levels=lv, got=int(real[iz][0]), iz=iz)))
+            if float(real[iz][1]) != want_rc:
+                f.append(dict(kind='model', key='rc:single-level', detail=dict(levels=lv, got=float(real[iz][1]), iz=iz)))
     nlevels = len(set(data))
     return dict(findings=f, nontrivial=nlevels > 1, sig='g' + str(hash((tuple(case['shape']), case['dtype'], tuple(data)))),
                 tags=dict(kind='otsu+rc', near_tie=('+'.join(sorted(near)) or 'none'), dtype=case['dtype'], gen=case.get('gen', 'corpus'),
                           levels=('1' if nlevels == 1 else '2' if nlevels == 2 else '3-16' if nlevels <= 16 else '>16'),
                           maxlevel=('<256' if max(data) < 256 else '<4096' if max(data) < 4096 else '16bit'),
-                          ndim=len(case['shape'])))
+                          ndim=len(case['shape']), size=case.get('size', 'small')))
 
 
 # ------------------------------------------------------------------------------------------ bernsen
@@ -208,9 +303,24 @@ def _eval_bernsen(case):
         return dict(findings=[dict(kind='property', key=f'{name}:raised:{type(e).__name__}', detail=dict(error=str(e)[:200]))],
                     nontrivial=False, sig='b-raised' + json.dumps(case)[:200],
                     tags=dict(kind=name, dtype=case['dtype'], gen=case.get('gen', 'corpus')))
-    line = (f"c16 kind=gbernsen shape={gen.enc_shape(img.shape)} data={gen.enc_arr(img)} "
-            f"bshape={gen.enc_shape(se.shape)} bc={gen.enc_arr(se.astype(int))} ct={ct} g2={g2}")
+    if case['kind'] == 'bernsen':
+        # the structuring element is built by the model (circleSe, C16_circle_se_spec), not taken from the implementation
+        line = (f"c16 kind=bernsen shape={gen.enc_shape(img.shape)} data={gen.enc_arr(img)} "
+                f"radius={case['radius']} ct={ct} g2={g2}")
+    else:
+        line = (f"c16 kind=gbernsen shape={gen.enc_shape(img.shape)} data={gen.enc_arr(img)} "
+                f"bshape={gen.enc_shape(se.shape)} bc={gen.enc_arr(se.astype(int))} ct={ct} g2={g2}")
     drv = core.drive([line])[0]
+    if case['kind'] == 'bernsen':
+        r = case['radius']
+        if list(se.shape) != [2 * r + 1, 2 * r + 1] or [int(v) for v in se.ravel().tolist()] != core.ints(drv['se']):
+            # the statement does not say which pixels form the "local" neighbourhood of bernsen(f, radius): a circle_se that
+            # differs from the model is a broken correspondence; the rule itself is then judged on the element really used
+            f.append(dict(kind='model', key='circle_se-model',
+                          detail=dict(radius=r, got=se.astype(int).tolist(), model=drv['se'])))
+            line = (f"c16 kind=gbernsen shape={gen.enc_shape(img.shape)} data={gen.enc_arr(img)} "
+                    f"bshape={gen.enc_shape(se.shape)} bc={gen.enc_arr(se.astype(int))} ct={ct} g2={g2}")
+            drv = core.drive([line])[0]
     model = core.ints(drv['model'])
     pinned = core.ints(drv['pinned'])
     interior = core.ints(drv['interior'])
@@ -229,7 +339,7 @@ def _eval_bernsen(case):
     both = any(interior) and len({(m, p) for m, p, o in zip(model, pinned, interior) if o}) > 1
     return dict(findings=f, nontrivial=bool(both), sig='b' + line,
                 tags=dict(kind=name, dtype=case['dtype'], gen=case.get('gen', 'corpus'), ndim=len(case['shape']),
-                          se=('even' if any(s % 2 == 0 for s in se.shape) else 'odd')))
+                          se=('even' if any(s % 2 == 0 for s in se.shape) else 'odd'), size=case.get('size', 'small')))
 
 
 # ------------------------------------------------------------------------------------------ soft threshold
@@ -239,6 +349,10 @@ def _eval_soft(case):
     f = []
     if case['dt'] == 'f64':
         x = core.floats(','.join(map(str, case['bits']))).reshape(case['shape'])
+        if case.get('fdt'):
+            # float32 / float16 input: values and threshold are dyadic and exactly representable in the dtype, so the cast is
+            # exact, f - t is exact in the dtype and the f64 model/spec of the driver applies to the result converted back
+            x = x.astype(case['fdt'])
         t = core.bits2f(case['tbits'])
         line = f"c16 kind=soft dt=f64 data={','.join(map(str, case['bits']))} t={case['tbits']}"
     else:
@@ -255,10 +369,17 @@ def _eval_soft(case):
     if case['dt'] == 'f64':
         spec, model = core.floats(drv['spec']), core.floats(drv['model'])
     else:
-        spec, model = np.array(core.ints(drv['spec'])), np.array(core.ints(drv['model']))
+        # python integers (object arrays): values beyond 2^63 must not pass through float64 on the way to the comparison
+        spec, model = np.array(core.ints(drv['spec']), dtype=object), np.array(core.ints(drv['model']), dtype=object)
     g = np.asarray(got).ravel()
+    if case['dt'] != 'f64':
+        g = np.array([int(v) for v in g.tolist()], dtype=object)
     if case.get('idt') and np.asarray(got).dtype != np.dtype(case['idt']):
         f.append(dict(kind='property', key='soft_threshold:dtype', detail=dict(got=str(np.asarray(got).dtype), want=case['idt'])))
+    if case.get('fdt'):
+        if np.asarray(got).dtype != np.dtype(case['fdt']):
+            f.append(dict(kind='model', key='soft_threshold:float-dtype', detail=dict(got=str(np.asarray(got).dtype), want=case['fdt'])))
+        g = g.astype(np.float64)
     if g.shape != spec.shape or not np.array_equal(g, spec):
         bad = [int(i) for i in np.nonzero(g != spec)[0][:8]] if g.shape == spec.shape else []
         f.append(dict(kind='property', key=f'soft_threshold:{case["dt"]}',
@@ -269,7 +390,7 @@ def _eval_soft(case):
         f.append(dict(kind='property', key='soft_threshold:input-modified', detail={}))
     ab = np.abs(before.ravel())
     return dict(findings=f, nontrivial=bool((ab > t).any() and (ab <= t).any()), sig='s' + line,
-                tags=dict(kind='soft_threshold', dtype=case['dt'], gen=case.get('gen', 'corpus')))
+                tags=dict(kind='soft_threshold', dtype=case.get('fdt') or case.get('idt') or case['dt'], gen=case.get('gen', 'corpus')))
 
 
 def evaluate(cases):
@@ -307,10 +428,30 @@ def _rand_global(rng):
     ndim = rng.choice([1, 2, 2, 2, 3])
     shape = [rng.choice([1, 2, 3, 4, 7, 16]) for _ in range(ndim)]
     n = int(np.prod(shape))
-    style = rng.choice(['constant', 'two-level', 'sparse', 'tie', 'zero-dominated', 'dense', 'fullrange', 'few'])
+    style = rng.choice(['constant', 'two-level', 'sparse', 'tie', 'zero-dominated', 'dense', 'fullrange', 'few', 'zeros+one',
+                        'neartie-high'])
     if style == 'constant':
-        v = rng.choice([0, 1, 2, 7, 255, top])
+        v = rng.choice([0, 0, 1, 2, 7, 255, top, rng.randint(0, top)])
         data = [v] * n
+    elif style == 'zeros+one':
+        # zeros and ONE other level: a single counted level once zeros are ignored
+        top2 = top if rng.random() < 0.3 else min(top, 1023)      # (the driver's exact table costs O(levels))
+        v = rng.choice([1, 2, 255, top2, rng.randint(1, top2)])
+        data = [v if rng.random() < rng.choice([0.1, 0.5, 0.9]) else 0 for _ in range(n)]
+        if rng.random() < 0.5:
+            data[rng.randrange(n)] = v
+    elif style == 'neartie-high':
+        # nearly symmetric histograms far from level 0 with many pixels: the running means of the C loop lose the most
+        # accuracy here (cancellation in mu_O), and sigma has two nearly equal local maxima
+        top2 = top if rng.random() < 0.3 else min(top, 4095)      # (the driver's exact table costs O(levels))
+        base = rng.randint(top2 // 2, max(top2 // 2, top2 - 8))
+        m = rng.choice([50, 400, 2000])
+        a, b = rng.randint(1, 3), rng.randint(1, 3)
+        data = [base] * a + [base + 1] * m + [base + 2] * b
+        if rng.random() < 0.5:
+            data += [base + 3] * rng.randint(1, 2)
+        rng.shuffle(data)
+        shape = [len(data)]
     elif style == 'two-level':
         a, b = rng.randint(0, top), rng.randint(0, top)
         if rng.random() < 0.4:
@@ -369,7 +510,7 @@ def _rand_bernsen(rng):
     # twice the global threshold; 0 (a legitimate explicit threshold, falsy in Python) and the dtype maximum included
     g2 = rng.choice([0, 2 * top, 2 * rng.randint(0, top), 2 * rng.randint(0, top) + 1, 2 * data[rng.randrange(n)], 256])
     if len(shape) == 2 and rng.random() < 0.3:
-        return dict(kind='bernsen', dtype=dtype, shape=shape, data=data, radius=rng.choice([1, 2, 3]), ct=ct, g2=g2,
+        return dict(kind='bernsen', dtype=dtype, shape=shape, data=data, radius=rng.choice([1, 2, 2, 3, 3, 4]), ct=ct, g2=g2,
                     default_g=rng.random() < 0.3, gen='circle')
     bshape = [rng.choice([1, 2, 3, 3, 4]) for _ in shape]
     nb = int(np.prod(bshape))
@@ -392,23 +533,69 @@ def _rand_soft(rng):
         else:
             t = abs(rng.gauss(0, 2))
             vals = [rng.choice([rng.gauss(0, 3), t, -t, 0.0, t * (1 + 2 ** -52), -t * (1 - 2 ** -53), 1e300, -1e-300]) for _ in range(n)]
-        return dict(kind='soft', dt='f64', shape=shape, bits=[core.f2bits(v) for v in vals], tbits=core.f2bits(t), gen=style)
+        case = dict(kind='soft', dt='f64', shape=shape, bits=[core.f2bits(v) for v in vals], tbits=core.f2bits(t), gen=style)
+        if style == 'dyadic' and rng.random() < 0.5:
+            case['fdt'] = rng.choice(['float32', 'float16'])
+            case['gen'] = 'dyadic-' + case['fdt']
+        return case
     if rng.random() < 0.5:
-        # every integer dtype, unsigned and narrow ones included (values and threshold representable in the dtype)
-        idt = rng.choice(['uint8', 'uint16', 'uint32', 'uint64', 'int8', 'int16', 'int32'])
+        # every integer dtype, unsigned and narrow ones included (values and threshold representable in the dtype); the most
+        # negative value of the signed dtypes included (|f| is not representable there: np.abs wraps)
+        idt = rng.choice(['uint8', 'uint16', 'uint32', 'uint64', 'int8', 'int16', 'int32', 'int64'])
         lo_, hi_ = gen.dt_range(idt)
         t = rng.choice([0, 1, 2, 16, min(hi_, 100)])
         top = min(hi_, 10 ** 6)
+        # 64-bit dtypes: magnitudes at and beyond 2^53 / 2^63 (a rewrite that goes through double merges 2^53+1 and 2^53)
+        big = [v for v in (2 ** 53 + 1, 2 ** 53 + 2, -(2 ** 53 + 1), 2 ** 62 + 1, 2 ** 63 + 1, hi_ - 1, lo_ + 1)
+               if lo_ <= v <= hi_] if idt in ('int64', 'uint64') else []
         vals = [rng.choice([0, t, min(top, t + 1), rng.randint(max(lo_, -40), min(hi_, 40)), rng.randint(max(lo_, -top), top), hi_,
-                            max(lo_ + 1, -t), max(lo_ + 1, -t - 1)]) for _ in range(n)]
+                            lo_, max(lo_ + 1, -t), max(lo_ + 1, -t - 1)] + big) for _ in range(n)]
         return dict(kind='soft', dt='i64', idt=idt, shape=shape, data=vals, t=t, gen='int-' + idt)
     t = rng.choice([0, 1, 2, 16, 1000])
     vals = [rng.choice([0, t, -t, t + 1, -t - 1, rng.randint(-40, 40), rng.randint(-10**6, 10**6)]) for _ in range(n)]
     return dict(kind='soft', dt='i64', shape=shape, data=vals, t=t, gen='int')
 
 
+def _size_threshold_cases(rng, tier):
+    """A handful of inputs whose pixel count / per-bin count / number of distinct levels crosses 2^8, 2^15, 2^16: a counter,
+    index or accumulator narrowed to 16 bits (or to float) passes every small case."""
+    out = []
+
+    def g(dtype, shape, gen_, **kw):
+        out.append(dict(kind='global', dtype=dtype, shape=shape, pseed=rng.randrange(1 << 30), gen=gen_, size='threshold', **kw))
+    a, b = rng.randint(1, 6), rng.randint(7, 200)
+    # more than 65535 pixels in ONE bin (and 2^15 +- 1 in another)
+    g('uint8', [1, 65537 + 3], 'one-bin-65537', rle=[[a, 65537], [b, 3]])
+    g('uint8', [257, 256], 'one-bin-257x256', rle=[[a, 257 * 256 - 32769], [b, 32769]])
+    if tier != 'quick' or rng.random() < 0.5:
+        g('uint16', [65536 + 32767], 'bins-65536+32767', rle=[[0, 65536], [b * 100, 32767]])
+    # exactly 255 / 256 / 257 distinct levels, and 65535 / 65536
+    k = rng.choice([255, 256, 257])
+    lv = list(range(k)); rng.shuffle(lv)
+    g('uint16', [k], f'levels-{k}', data=lv)
+    k = rng.choice([65535, 65536]) if tier == 'quick' else 65536
+    lv = list(range(k)); rng.shuffle(lv)
+    g('uint16', [k], f'levels-{k}', data=lv)
+    if tier != 'quick':
+        lv = list(range(65535)); rng.shuffle(lv)
+        g('uint16', [65535], 'levels-65535', data=lv)
+        # 2^24 + 1 pixels in one bin (a float32 accumulator stops counting at 2^24); judged by the Python oracle
+        # (three levels chosen so that the exact optimum T = 1 beats T = 100 by 15 %, while a lower-class count that lost its
+        # last bit - 2^24 instead of 2^24+1, hence 6 instead of 5 pixels above - prefers T = 100)
+        out.append(dict(kind='global', dtype='uint8', shape=[2 ** 24 + 1 + 5], pseed=rng.randrange(1 << 30), gen='one-bin-2^24+1',
+                        size='threshold', oracle='python', rle=[[1, 2 ** 24 + 1], [100, 3], [210, 2]]))
+    # gbernsen on a row longer than 65536
+    w = 65536 + rng.randint(1, 40)
+    row = [rng.randint(0, 255) for _ in range(w)]
+    out.append(dict(kind='gbernsen', dtype='uint8', shape=[1, w], data=row, bshape=[1, 3], bc=[1, 1, 1], ct=rng.choice([15, 40, 128]),
+                    g2=256, gen='row-65536+', size='threshold'))
+    return out
+
+
 def cases(rng, tier):
     out = list(_corpus()) if tier != 'search' else []
+    if tier != 'search':
+        out += _size_threshold_cases(rng, tier)
     ng, nb, ns = dict(quick=(3000, 1500, 500), thorough=(28000, 9000, 3000), search=(6000, 3000, 500))[tier]
     # exhaustive tiny histograms (every count vector over the first few grey levels): the stopping rules and arg-max
     # comparisons of otsu / rc are decided by exact ties and integer midpoints, which large random images never produce
@@ -442,6 +629,8 @@ def shrink(case):
                 e = d[:i] + d[i + 1:]
                 yield dict(case, shape=[len(e)], **{key: e})
         return
+    if 'rle' in case or case.get('size') == 'threshold':
+        return                       # the size IS the point of these cases
     shape, data = case['shape'], case['data']
     A = np.array(data, dtype=object).reshape(shape)
     for ax in range(len(shape)):
